@@ -476,6 +476,10 @@ impl<'a> Gen<'a> {
         // (section-to-list) the marker must stay text
         if self.p.numbered_headings && level >= 2 && self.rng.chance(1, 5) {
             v.insert(0, Inl::W(self.rng.pick(&["1.", "2)", "12.", "-", "+", "1986."]).to_string()));
+            // (sometimes the marker is all there is: "## 1.")
+            if self.rng.chance(1, 4) {
+                v.truncate(1);
+            }
         }
         // a heading that ends in " #" (spelled setext: in ATX spelling the run would be the closing sequence)
         if style == HStyle::Setext && self.rng.chance(1, 6) {
@@ -668,9 +672,18 @@ impl<'a> Gen<'a> {
                     item.push(Blk::Html(vec![format!("<!-- {} -->", w)]));
                     // (the text after the comment may begin with emphasis or a link)
                     let mut v = self.plain_words(1, 3);
-                    if self.rng.chance(1, 2) {
-                        let w = self.plain_words(1, 2);
-                        v.insert(0, if self.rng.chance(1, 2) { Inl::Strong(w) } else { Inl::Emph(w) });
+                    match self.rng.below(3) {
+                        0 => {
+                            let w = self.plain_words(1, 2);
+                            v.insert(0, if self.rng.chance(1, 2) { Inl::Strong(w) } else { Inl::Emph(w) });
+                        }
+                        1 => {
+                            // ... or with an image
+                            let name = self.words.next(self.rng, false);
+                            let alt = self.plain_words(1, 1);
+                            v.insert(0, Inl::Image { dest: format!("img/{}.png", name), alt });
+                        }
+                        _ => {}
                     }
                     item.push(Blk::Para(v));
                 }
